@@ -775,19 +775,19 @@ pub fn check(tier: Tier) -> Check {
         ],
         deciding: vec!["C05"],
         streams: vec![
-            Stream::new("storm", tier.pick(320, 6400), storm_scenario),
-            Stream::new("tid-echo", tier.pick(96, 1920), echo_scenario),
+            Stream::new("storm", tier.pick(1_600, 6400), storm_scenario),
+            Stream::new("tid-echo", tier.pick(480, 1920), echo_scenario),
         ],
         require: vec![
-            ("wellformed_queries", tier.pick(10_000, 500_000)),
-            ("must_be_silent_datagrams", tier.pick(8_000, 300_000)),
-            ("outcome_reply", tier.pick(5_000, 200_000)),
-            ("outcome_ack", tier.pick(500, 20_000)),
-            ("outcome_e203", tier.pick(500, 20_000)),
-            ("outcome_e202", tier.pick(50, 1_000)),
-            ("store_renewal_scenarios", tier.pick(5, 100)),
-            ("duplicated_queries", tier.pick(300, 10_000)),
-            ("queries_reusing_a_pending_tid", tier.pick(40, 400)),
+            ("wellformed_queries", tier.pick(50_000, 500_000)),
+            ("must_be_silent_datagrams", tier.pick(40_000, 300_000)),
+            ("outcome_reply", tier.pick(25_000, 200_000)),
+            ("outcome_ack", tier.pick(2_500, 20_000)),
+            ("outcome_e203", tier.pick(2_500, 20_000)),
+            ("outcome_e202", tier.pick(250, 1_000)),
+            ("store_renewal_scenarios", tier.pick(25, 100)),
+            ("duplicated_queries", tier.pick(1_500, 10_000)),
+            ("queries_reusing_a_pending_tid", tier.pick(200, 400)),
         ],
         exhaustive: false,
     }
